@@ -349,8 +349,9 @@ def write_evidence(ctx: Ctx, violations: int, known_hits: list[str]) -> None:
         jsonschema.validate(evidence, schema)
     except jsonschema.ValidationError as e:
         raise HarnessError(f'evidence does not validate: {e.message}') from e
-    os.makedirs(os.path.join(VERIF, 'evidence'), exist_ok=True)
-    path = os.path.join(VERIF, 'evidence', f'{ctx.prop}.json')
+    edir = os.path.join(VERIF, 'out', 'evidence_sens') if os.environ.get('VERIF_NO_EVIDENCE') else os.path.join(VERIF, 'evidence')
+    os.makedirs(edir, exist_ok=True)
+    path = os.path.join(edir, f'{ctx.prop}.json')
     with open(path + '.tmp', 'w') as f:
         json.dump(evidence, f, indent=1, sort_keys=True)
         f.write('\n')
